@@ -20,7 +20,8 @@ METHODS = ["GET", "POST", "OPTIONS", "PUT", "DELETE", "HEAD"]
 PATHS = ["", "/", "/pyro", "/pyro/", "/pyro/http.a", "/pyro/http.a/", "/pyro/http.a/m", "/pyro/http.a/m/extra", "/pyro/http.ab/m", "/pyro/HTTP.a/m", "/pyro/http./m",
          "/pyro/xhttp.a/m", "/pyro/hidden.x/m", "/pyro/http.a/$meta", "/pyro/hidden.x/$meta", "/pyro/http.a/attr", "/pyro/http.a/secret", "/pyro/http.a/_private",
          "/pyro/http.a/_pyroRelease", "/pyro/http.a/_pyroBind", "/pyro/http.a/__class__", "/pyro/http.a/fail", "/pyro/http.a/ow", "/pyro/http.zz/m", "/other/x",
-         "/pyro/http.a/M", "/pyro/http.a\n/m", "/pyro//m", "//pyro/http.a/m", "/pyro/http.a/no_such"]
+         "/pyro/http.a/M", "/pyro/http.a\n/m", "/pyro//m", "//pyro/http.a/m", "/pyro/http.a/no_such",
+         "/pyro/http.a%62/m", "/pyro/http.a/%6d", "/pyro/http.a/%24meta", "/pyro/internal.http.a/m"]
 QUERIES = ["", "x=1", "x=1&y=b", "$key=" + KEY, "$key=WRONG", "x=1&$key=" + KEY, "x=1&x=2", "$key=%s&$key=%s" % (KEY, KEY), "x=", "$key=",
            "x=a;b", "x=1;y=2", "x=1;$key=" + KEY, "x=%3B&y=a+b"]
 KEYHDR = [None, "WRONG", KEY]
